@@ -181,9 +181,50 @@ def _call_global(unit: Any) -> Part:
     return _call((_CUR_FN, unit))
 
 
+_ISOLATE = False
+
+
+def isolated(fn: Callable[..., Any], *args: Any) -> Any:
+    """Run fn(*args) in a forked child and return its (pickled) result: whatever the call leaves behind in the library
+    under test (class attributes, module-level memos, caches) dies with the child, so the outcome of a call is a function
+    of its arguments and of the state of THIS process at the time of the fork only."""
+    import pickle
+    r, w = os.pipe()
+    pid = os.fork()
+    if pid == 0:
+        code = 0
+        try:
+            os.close(r)
+            try:
+                payload = pickle.dumps(("ok", fn(*args)))
+            except BaseException as e:  # noqa
+                payload = pickle.dumps(("err", f"{type(e).__name__}: {e}", traceback.format_exc()[-1500:]))
+            with os.fdopen(w, "wb") as f:
+                f.write(payload)
+            em = sys.modules.get("odxmodel.emit")
+            if em is not None:
+                em.cleanup_scratch()
+        except BaseException:  # noqa
+            code = 1
+        finally:
+            os._exit(code)
+    os.close(w)
+    with os.fdopen(r, "rb") as f:
+        data = f.read()
+    os.waitpid(pid, 0)
+    if not data:
+        raise HarnessError("isolated call died without a result")
+    res = pickle.loads(data)
+    if res[0] == "err":
+        raise HarnessError(f"isolated call raised {res[1]}\n{res[2]}")
+    return res[1]
+
+
 def _call(args: Tuple[Callable[..., Part], Any]) -> Part:
     fn, unit = args
     try:
+        if _ISOLATE:
+            return isolated(fn, unit)
         return fn(unit)
     except BaseException as e:  # a crashing worker is a harness error, reported by the master
         p = Part()
@@ -200,9 +241,12 @@ def _call(args: Tuple[Callable[..., Part], Any]) -> Part:
 _MASTER_PID = os.getpid()
 
 
-def pmap(ctx: Ctx, fn: Callable[[Any], Part], units: List[Any], chunksize: int = 1) -> None:
+def pmap(ctx: Ctx, fn: Callable[[Any], Part], units: List[Any], chunksize: int = 1, isolate: bool = False) -> None:
     """Run fn(unit)->Part for all units on the worker pool, merge into ctx. Order of units is rotated by
-    the seed (results must not depend on it)."""
+    the seed (results must not depend on it).  isolate: every unit runs in a forked child of its (pristine) worker, so
+    that state the library shares between objects cannot leak from one unit into the next."""
+    global _ISOLATE
+    _ISOLATE = isolate
     units = list(units)
     if units and ctx.seed:
         r = ctx.seed % len(units)
@@ -338,7 +382,7 @@ def run_check(prop: str, tier: str) -> int:
     try:
         # regression corpus first: replay cases of known / fixed findings
         for key, case in corpus_cases(prop):
-            got = mod.replay(case)
+            got = isolated(mod.replay, case)
             ctx.count("corpus_cases")
             for k, detail in got:
                 ctx.violation(k, case, detail)
@@ -346,12 +390,40 @@ def run_check(prop: str, tier: str) -> int:
         # classify
         new: List[Tuple[str, Any, str]] = []
         known_hits: List[str] = []
+        confirmed: Dict[str, Tuple[Any, str]] = {}
+        wide_cache: Dict[str, List[Tuple[str, str]]] = {}
         for key in sorted(ctx.viol):
             _, case, detail = ctx.viol[key]
             # reproduce from the recorded case before believing it
-            again = [k for k, _ in mod.replay(case)]
-            if key not in again:
+            again = [k for k, _ in isolated(mod.replay, case)]
+            if key in again:
+                confirmed.setdefault(key, (case, detail))
+                continue
+            # state shared between objects of one process (class attributes, module-level memos) can make a failure
+            # depend on what was loaded before: retry with the context the check can name (e.g. the whole unit of
+            # descriptions) in a fresh process. What fails THERE is what is reported (the keys may differ from the one
+            # seen during the exploration, whose history cannot be replayed), each with the unit as its replay case.
+            ctxfn = getattr(mod, "contextualize", None)
+            wider = ctxfn(case, ctx) if ctxfn is not None else None
+            res = []
+            if wider is not None:
+                ck = jdump({k: v for k, v in wider.items() if k in ("unit_replay", "backend")}) if isinstance(wider, dict) and "unit_replay" in wider else jdump(wider)
+                if ck not in wide_cache:
+                    if len(wide_cache) >= 6:
+                        # enough context replays for one run: further history-dependent keys are counted, not replayed
+                        ctx.counts["history_dependent_keys_not_replayed"] = ctx.counts.get("history_dependent_keys_not_replayed", 0) + 1
+                        continue
+                    wide_cache[ck] = fresh_replay(prop, wider)
+                res = wide_cache[ck]
+                if not res and any(wide_cache.values()):
+                    ctx.counts["history_dependent_keys_not_replayed"] = ctx.counts.get("history_dependent_keys_not_replayed", 0) + 1
+                    continue
+            if not res:
                 raise HarnessError(f"violation {key} did not reproduce from its recorded case {jdump(case)[:300]}")
+            for k2, d2 in res:
+                confirmed.setdefault(k2, (wider, d2 + "  [reproduces only together with the other descriptions of its unit: state shared between objects]"))
+        for key in sorted(confirmed):
+            case, detail = confirmed[key]
             if (prop, key) in known.known:
                 known_hits.append(key)
                 print(f"KNOWN-FINDING: property={prop} key={key} {known.known[(prop, key)]}")
@@ -409,6 +481,17 @@ def sub_main(prop: str, tier: str) -> None:
     out = {"counts": ctx.counts, "nviol": ctx.nviol, "viol": {k: [v[0], v[1], v[2]] for k, v in ctx.viol.items()},
            "sets": {k: len(v) for k, v in ctx.sets.items()}}
     print("SUBRESULT " + jdump(out))
+
+
+def fresh_replay(prop: str, case: Any) -> List[Tuple[str, str]]:
+    """Replay a case in a fresh interpreter (no state left over from the exploration)."""
+    import subprocess
+    code = ("import sys, json; sys.path.insert(0, %r); from mcx.core import sub_replay; sub_replay(%r, sys.stdin.read())" % (VERIF, prop))
+    r = subprocess.run([sys.executable, "-W", "ignore", "-c", code], input=jdump(case), capture_output=True, text=True, cwd=VERIF)
+    lines = [l for l in r.stdout.splitlines() if l.startswith("SUBRESULT ")]
+    if not lines:
+        raise HarnessError("fresh-process replay failed: " + r.stderr[-800:])
+    return [tuple(x) for x in json.loads(lines[-1][len("SUBRESULT "):])]
 
 
 def sub_replay(prop: str, case_json: str) -> None:
